@@ -42,6 +42,9 @@ fn spec(cfg: Config, depth: usize, devs: usize) -> SeqSpec {
                     a.push((Op::HsRead { side: s, msg: Msg::Garbage(96, 7), cap: Cap::Roomy }, true));
                     a.push((Op::ToTransport { side: s }, !fin));
                     a.push((Op::ToStateless { side: s }, !fin));
+                    // the public TryFrom<HandshakeState> route must enforce the same rule
+                    a.push((Op::TryIntoTransport { side: s }, !fin));
+                    a.push((Op::TryIntoStateless { side: s }, !fin));
                 },
                 APhase::T | APhase::S => {
                     let stateless = ab.phase == APhase::S;
